@@ -343,10 +343,10 @@ func runC16(c *engine.Ctx) {
 	c.Rule = "twin worlds: state = canonical snapshot of the path-style world; transition = one logical operation (bucket, object, copy, multi-delete, versioning, delete-version, multipart, form upload) sent path-style to one world and host-style to its twin, canonical responses must be equal at every step and for every read in every state; routing matrix: option x Host x path x route, the host-mode answer must equal the answer to the prescribed path-style URL; distinct_nontrivial = distinct canonical states + distinct matrix outcomes"
 	c.Assumptions = append(c.Assumptions, "twin worlds use identical deterministic backends (same version seed, same clock)", "CompleteMultipartUpload's Location is compared with the form prescribed for the mode, everything else byte for byte")
 	depth := 4
-	kinds := []drv.Kind{drv.Mem}
+	kinds := []drv.Kind{drv.Mem, drv.Bolt, drv.MultiMem}
 	if !quick(c) {
 		depth = 6
-		kinds = []drv.Kind{drv.Mem, drv.Bolt, drv.MultiMem}
+		kinds = []drv.Kind{drv.Mem, drv.Bolt, drv.MultiMem, drv.MultiDir}
 	}
 	c.SpecBudget = c.Budget() / time.Duration(2*len(kinds)+1)
 	for _, k := range kinds {
